@@ -109,65 +109,71 @@ func c03StampReachesPublished(p *Prog, r *Report, rule string) {
 			return true
 		})
 	}
-	var lit *ast.FuncLit
-	ast.Inspect(fi.Decl.Body, func(x ast.Node) bool {
-		if c, ok := x.(*ast.CallExpr); ok && p.callIs(fi.Pkg, c, kRepoRunTx) {
-			for _, a := range c.Args {
-				if l, ok := ast.Unparen(a).(*ast.FuncLit); ok {
-					lit = l
-				}
+	var cb *FuncInfo
+	var lit ast.Node
+	outer := p.FlatInl(fi)
+	for _, n := range outer.Nodes {
+		if n.Ast == nil {
+			continue
+		}
+		for _, c := range callsIn(n.Ast, false) {
+			if p.callIs(fi.Pkg, c, kRepoRunTx) {
+				cb = p.callbackOf(fi, c)
+				lit = c
 			}
 		}
-		return true
-	})
-	if pubSlice == nil || lit == nil {
-		r.Undecided(rule, cons, p.pos(fi.Decl), "publication loop or commit literal not found")
+	}
+	if pubSlice == nil || cb == nil {
+		r.Undecided(rule, cons, p.pos(fi.Decl), "publication loop or commit callback not found")
 		return
 	}
+	cf := p.FlatInl(cb)
 	good, found := true, false
 	detail := ""
-	ast.Inspect(lit.Body, func(x ast.Node) bool {
-		as, ok := x.(*ast.AssignStmt)
-		if !ok {
-			return true
+	// the root variable of an expression, followed through the parameter bindings of inlined helpers and through
+	// the captured variables of the callback
+	rootOf := func(e ast.Expr) types.Object { return outer.CanonObj(cf.CanonRoot(e)) }
+	for _, gn := range cf.Nodes {
+		if gn.Ast == nil {
+			continue
 		}
-		for _, l := range as.Lhs {
-			sel, ok := l.(*ast.SelectorExpr)
-			if !ok || sel.Sel.Name != "Seq" {
-				continue
-			}
-			found = true
-			switch b := ast.Unparen(sel.X).(type) {
-			case *ast.IndexExpr:
-				if objOf(info, b.X) != pubSlice {
-					good = false
-					detail = "the stamp is written into " + types.ExprString(b.X) + ", not into the slice that is published"
+		if as, ok := gn.Ast.(*ast.AssignStmt); ok {
+			for _, l := range as.Lhs {
+				sel, ok := l.(*ast.SelectorExpr)
+				if !ok || sel.Sel.Name != "Seq" {
+					continue
 				}
-			case *ast.Ident:
-				o := objOf(info, b)
-				if _, isPtr := o.Type().(*types.Pointer); !isPtr {
+				found = true
+				switch b := ast.Unparen(sel.X).(type) {
+				case *ast.IndexExpr:
+					if rootOf(b.X) != pubSlice {
+						good = false
+						detail = "the stamp is written into " + types.ExprString(b.X) + ", not into the slice that is published"
+					}
+				case *ast.Ident:
+					o := objOf(info, b)
+					if _, isPtr := o.Type().(*types.Pointer); !isPtr {
+						good = false
+						detail = "the stamp is written into the loop copy " + b.Name + ": the versions published in memory keep their write-time sequence numbers while Badger gets the commit stamp"
+					}
+				default:
 					good = false
-					detail = "the stamp is written into the loop copy " + b.Name + ": the versions published in memory keep their write-time sequence numbers while Badger gets the commit stamp"
-				}
-			default:
-				good = false
-				detail = "unrecognised stamp target " + types.ExprString(sel.X)
-			}
-		}
-		return true
-	})
-	// and the durable write stores the same element
-	ast.Inspect(lit.Body, func(x ast.Node) bool {
-		if c, ok := x.(*ast.CallExpr); ok && p.callIs(fi.Pkg, c, kFileRepoSet) && len(c.Args) == 2 {
-			if ix, ok := ast.Unparen(c.Args[1]).(*ast.IndexExpr); ok {
-				if objOf(info, ix.X) != pubSlice {
-					good = false
-					detail = "the version written to Badger is not an element of the published slice"
+					detail = "unrecognised stamp target " + types.ExprString(sel.X)
 				}
 			}
 		}
-		return true
-	})
+		// and the durable write stores the same element
+		for _, c := range callsIn(gn.Ast, false) {
+			if p.callIs(fi.Pkg, c, kFileRepoSet) && len(c.Args) == 2 {
+				if ix, ok := ast.Unparen(c.Args[1]).(*ast.IndexExpr); ok {
+					if rootOf(ix.X) != pubSlice {
+						good = false
+						detail = "the version written to Badger is not an element of the published slice"
+					}
+				}
+			}
+		}
+	}
 	r.Check(found && good, rule, cons, p.pos(lit), "the commit stamp is stored into the elements that are written to Badger and published", detail)
 }
 
